@@ -106,7 +106,8 @@ func (c *compiler) compile(o interface{}) error {
 		p := o.(Meta).Parent()
 		if !x.IsConfigSet() {
 			x.setConfig(c.inheritConfig(p))
-		} else if x.Config() && !p.(HasConfig).Config() {
+		} else if pc, parentHasConfig := p.(HasConfig); parentHasConfig && x.Config() && !pc.Config() {
+			// (the input of an rpc or a notification has no config, any statement below it is ignored)
 			return fmt.Errorf("%s - config cannot be true when parent config is false", SchemaPath(o.(Meta)))
 		}
 	}
